@@ -562,6 +562,27 @@ fn ref_parse(bytes: &[u8], closed: bool, head_req: bool) -> Intent {
     }
 }
 
+/// bytes the script sends unprompted after a pause inside block `blk` (they reach the socket
+/// after the client returned from the request and before the next one: unsolicited leftovers)
+fn late_bytes_in_block(evs: &[Ev], blk: usize) -> usize {
+    let mut cur: isize = -1;
+    let mut after_pause = false;
+    let mut n = 0;
+    for e in evs {
+        match e {
+            Ev::W => {
+                cur += 1;
+                after_pause = false;
+            }
+            Ev::P => after_pause = true,
+            Ev::D { hex } if after_pause && cur == blk as isize => n += hex.len() / 2,
+            Ev::C => break,
+            _ => {}
+        }
+    }
+    n
+}
+
 /// response blocks of one connection script: (bytes, closed by C, has gate)
 fn blocks_of(evs: &[Ev]) -> Vec<(Vec<u8>, bool, bool)> {
     let mut out: Vec<(Vec<u8>, bool, bool)> = vec![];
@@ -694,6 +715,15 @@ fn oracle(sc: &Scenario, r: &RunOut) -> Result<(), String> {
                 }
                 Intent::Malformed => {}
             }
+        }
+        // no leftovers: the previous block of this connection pushed bytes nobody asked for
+        // after its response had been read; they were in the socket when this request was sent
+        if blk >= 1 && late_bytes_in_block(&script, blk - 1) > 0 {
+            return Err(format!(
+                "request {k} was sent on a connection holding {} unread bytes of an earlier exchange (leftovers); it got {}",
+                late_bytes_in_block(&script, blk - 1),
+                show_outcome(out)
+            ));
         }
         // reuse discipline: the previous exchange on this connection was read to its end
         if blk >= 1 {
@@ -1021,9 +1051,15 @@ fn gen_extra_or_stall(rng: &mut Rng) -> Gen {
     let body = rand_body(rng, 20);
     let (h, w) = wire(rng, 200, true, &Fr::Cl, &body, None);
     let full = [h.clone(), w.clone()].concat();
-    let (evs, tag) = match rng.below(4) {
+    let (evs, tag) = match rng.below(6) {
         0 => (vec![Ev::W, d(&[full, b"EXTRA".to_vec()].concat()), Ev::W, d(OK2)], "extra:same-segment"),
         1 => (vec![Ev::W, d(&full), Ev::P, d(b"EXTRA"), Ev::W, d(OK2)], "extra:late-segment"),
+        4 | 5 => {
+            // an unsolicited COMPLETE response pushed after response 1 was read; request 2 follows
+            // promptly and must not be answered with it
+            let (sh, sw) = wire(rng, 200, true, &Fr::Cl, b"STALE", None);
+            (vec![Ev::W, d(&full), Ev::P, d(&[sh, sw].concat()), Ev::W, d(OK2)], "extra:late-response")
+        }
         2 => {
             let c = rng.range(1, full.len() as u64 - 1) as usize;
             (vec![Ev::W, d(&full[..c])], "stall:silent-peer")
